@@ -299,6 +299,43 @@ impl Property for C20 {
         }
         o.evals = 3;
         let _ = big_to_fr;
+        // (3b) one case in eight: a same-length sibling of the stored graph (one constant changed) is
+        // evaluated first, then the stored graph again — exclusively, so that no other shard's
+        // evaluation falls between the two (anything remembered per process about "the last graph"
+        // must be keyed on the whole graph)
+        static EXCL: std::sync::RwLock<()> = std::sync::RwLock::new(());
+        let sibling = case.order_rot % 8 == 0 && !o.failed();
+        let (_shared, _excl);
+        if sibling {
+            _excl = Some(EXCL.write().unwrap_or_else(|e| e.into_inner()));
+            _shared = None;
+        } else {
+            _shared = Some(EXCL.read().unwrap_or_else(|e| e.into_inner()));
+            _excl = None;
+        }
+        if sibling {
+            if let Some(k) = (0..b.nodes.len()).rev().find(|k| matches!(b.nodes[*k], Node::MontConstant(_))) {
+                let mut sib = b.nodes.clone();
+                if let Node::MontConstant(f) = &mut sib[k] {
+                    *f += ark_bn254::Fr::from(1u64);
+                }
+                let mut sbytes = vec![];
+                if serialize_witnesscalc_graph(&mut sbytes, &sib, &b.outputs, &b.info).is_ok() && sbytes.len() == bytes.len() {
+                    o.label("same-length-sibling-graph-first");
+                    let _ = guarded(|| calc_witness(named.clone(), &sbytes));
+                    match guarded(|| calc_witness(named.clone(), &bytes)) {
+                        Ok(got) => {
+                            let got: Vec<BigUint> = got.iter().map(fr_to_big).collect();
+                            if got != want {
+                                vfail!(o, "calc_witness on the stored graph, evaluated right after a same-length sibling (constant node {k} changed), differs from the reference interpretation");
+                            }
+                        }
+                        Err(p) => vfail!(o, "calc_witness panicked: {}", p.0),
+                    }
+                    o.evals += 2;
+                }
+            }
+        }
         // (4) the same stored graph with a second input vector (every supplied value + 1), then the
         // first vector again, back to back on this thread: results must depend on the inputs only
         if !o.failed() && !case.values.is_empty() && !named.is_empty() {
